@@ -18,6 +18,38 @@ pub struct SearchValidationPlan {
     pub ef_search_override: Option<usize>,
 }
 
+/// Reject structurally malformed metadata filters.
+///
+/// A filter message whose `filter_type` oneof is unset, a NOT without operand and a range
+/// without any bound carry no condition. The reference evaluator treats the first and the
+/// last as "matches everything", so serving them would turn a malformed BatchDelete into
+/// "delete the whole collection". Empty AND / OR / IN lists are well-formed (they have
+/// defined semantics) and are not rejected here.
+///
+/// Returns an error string suitable for an `INVALID_ARGUMENT` gRPC status.
+pub fn validate_metadata_filter(filter: &MetadataFilter) -> Result<(), String> {
+    match &filter.filter_type {
+        None => Err("metadata filter has no filter_type set".to_string()),
+        Some(FilterType::Exact(_)) | Some(FilterType::InMatch(_)) => Ok(()),
+        Some(FilterType::Range(range)) => {
+            if range.bound.is_none() {
+                Err(format!(
+                    "range filter on key '{}' has no bound (gte/lte/gt/lt)",
+                    range.key
+                ))
+            } else {
+                Ok(())
+            }
+        }
+        Some(FilterType::AndFilter(and)) => and.filters.iter().try_for_each(validate_metadata_filter),
+        Some(FilterType::OrFilter(or)) => or.filters.iter().try_for_each(validate_metadata_filter),
+        Some(FilterType::NotFilter(not)) => match &not.filter {
+            Some(inner) => validate_metadata_filter(inner),
+            None => Err("NOT filter has no operand".to_string()),
+        },
+    }
+}
+
 /// Validate a search request and derive an execution plan.
 ///
 /// Returns an error string suitable for an `INVALID_ARGUMENT` gRPC status.
@@ -44,6 +76,9 @@ pub fn validate_search_request(req: &SearchRequest) -> Result<SearchValidationPl
     }
     if req.ef_search > 10_000 {
         return Err("ef_search must be <= 10000 (0 = server default)".to_string());
+    }
+    if let Some(ref filter) = req.filter {
+        validate_metadata_filter(filter)?;
     }
 
     let has_namespace = !req.namespace.is_empty();
